@@ -1423,8 +1423,8 @@ def c09(ctx):
     ctx.run_vh(["c09", "programs", cf, rf], timeout=3400)
     ctx.absorb(rf)
     ctx.cov["rule"] = ("one evaluation = one gate graph compiled under {prune on/off} x {Yao, GMW} and compared on every input with the "
-                       "original graph's truth table, or one program compiled under 14 configurations ({prune} x {multiplier thresholds 0, 8, 16, "
-                       "21, 64} x {Yao, GMW}) and compared on every input (<= 12/16 input bits) or 64 vectors; non-trivial = >= 2 gates / >= 3 statements")
+                       "original graph's truth table, or one program compiled under 16 configurations ({prune} x {multiplier thresholds 0, 8, 16, "
+                       "21, 64} x {Yao, GMW}, plus diagnostics and all listings switched on) and compared on every input (<= 12/16 input bits) or 64 vectors; non-trivial = >= 2 gates / >= 3 statements")
     ctx.check_drift()
 
 
